@@ -3,9 +3,14 @@
 
 Source: `/repo/src/python/PyImath/PyImathBufferProtocol.cpp`
 (`BufferAPI` constructor 52-64, `SharedBufferAPI::numBytes` 103-104,
-`getbuffer` 226-293, `fixedArrayFromBuffer` 336-367) and the traits of
+`getbuffer` 226-293, `fixedArrayFromBuffer` 355-412) and the traits of
 `PyImathFixedArrayTraits.h` (`FixedArrayWidth/Dimension/AtomicSize`,
 `PyFormat`), which the check re-reads from the current tree on every run.
+
+A source handed to `...ArrayFromBuffer` is a PEP-3118 view: `format`, `itemsize`, `shape`, `strides`
+(bytes, any sign), `len = Π shape × itemsize` and a pointer `buf` INTO the exporter's memory block
+(`mem`, `off`).  `fixedArrayFromBuffer` requests `PyBUF_FORMAT | PyBUF_STRIDES`, so every strided exporter
+(a `memoryview` slice `[::2]`, `[::-1]`, imath's own component arrays `V3fArray.y`) is accepted.
 -/
 namespace ImathVerif.BufferProtocol
 
@@ -18,6 +23,13 @@ structure ElemTy where
   format : Char        -- PyFormat<T>()[0]
   deriving DecidableEq, Repr
 
+/-- how `fixedArrayFromBuffer` fills the new array from the view -/
+inductive CopyMode
+  | memcpy              -- `memcpy (dst, view.buf, view.len)` whatever the strides (as written)
+  | requireContiguous   -- the view is requested / tested C-contiguous, other views are refused; then `memcpy`
+  | logical             -- `PyBuffer_ToContiguous (dst, &view, view.len, 'C')`: item by item, honouring the strides
+  deriving DecidableEq, Repr
+
 /-- which variant of the code is modelled -/
 structure BufCfg where
   /-- `numBytes` = product of the exported shape x itemsize (false: `len * atomicSize * stride`, as written) -/
@@ -25,10 +37,18 @@ structure BufCfg where
   /-- `fixedArrayFromBuffer` rejects a source whose format / item size / byte length does not match `T`
       (false: only byte-order prefixes are rejected, as written) -/
   fromBufferChecks : Bool
+  /-- the copy -/
+  copy : CopyMode := .memcpy
   deriving DecidableEq, Repr
 
-def BufCfg.asWritten : BufCfg := ⟨false, false⟩
-def BufCfg.repaired : BufCfg := ⟨true, true⟩
+/-- the tree as first examined -/
+def BufCfg.asWritten : BufCfg := ⟨false, false, .memcpy⟩
+/-- after fixes fc32a9c / 529722b: shape-derived `numBytes`, element type / size checks, still a flat `memcpy` -/
+def BufCfg.checked : BufCfg := ⟨true, true, .memcpy⟩
+/-- every site as evidently intended: the copy reads exactly the source's items -/
+def BufCfg.repaired : BufCfg := ⟨true, true, .logical⟩
+/-- the other acceptable repair: non-contiguous sources are refused -/
+def BufCfg.repairedStrict : BufCfg := ⟨true, true, .requireContiguous⟩
 
 /-- the fields of `Py_buffer` that `getbuffer` fills (flags: `PyBUF_FULL_RO`) -/
 structure PyBuffer where
@@ -64,18 +84,30 @@ def PyBuffer.consistent (b : PyBuffer) : Prop := b.len = prod b.shape * b.itemsi
 
 instance (b : PyBuffer) : Decidable b.consistent := by unfold PyBuffer.consistent; infer_instance
 
-/-- a source buffer handed to `...ArrayFromBuffer` -/
+/-- a source view handed to `...ArrayFromBuffer` -/
 structure Src where
   format : List Char   -- `view.format` ([] models a null pointer)
   itemsize : Nat
-  shape0 : Nat         -- `view.shape[0]`
-  bytes : List Nat     -- the `view.len` bytes at `view.buf`
+  shape : List Nat     -- `view.shape` (`view.ndim` = its length)
+  strides : List Int   -- `view.strides`, in bytes, any sign
+  mem : List Nat       -- the exporter's memory block (bytes)
+  off : Nat            -- `view.buf` minus the start of that block
+  len : Nat            -- `view.len`
   deriving DecidableEq, Repr
+
+/-- `view.shape[0]` -/
+def Src.shape0 (s : Src) : Nat := s.shape.headD 0
+
+/-- a dense 1-D source: `array.array`, `bytes`, ... -/
+def Src.dense (format : List Char) (itemsize shape0 : Nat) (bytes : List Nat) : Src :=
+  ⟨format, itemsize, [shape0], [itemsize], bytes, 0, bytes.length⟩
 
 inductive FromErr
   | unsupportedType      -- std::invalid_argument "Unsupported buffer type"
-  | mismatch             -- (repaired variant) element type / size does not match
-  | oob                  -- model only: memcpy writes past the new allocation
+  | mismatch             -- element type / size does not match
+  | notContiguous        -- (`requireContiguous`) the view is not C-contiguous
+  | oob                  -- model only: the copy writes past the new allocation
+  | oobRead              -- model only: the copy reads outside the exporter's memory block
   deriving DecidableEq, Repr
 
 /-- the format test of `fixedArrayFromBuffer`: null, or a byte-order prefix `>`, `!`, `=`, `^` -/
@@ -84,16 +116,71 @@ def badPrefix (fmt : List Char) : Bool :=
   | [] => true
   | c :: _ => c == '>' || c == '!' || c == '=' || c == '^'
 
+/-- the lambda `fmtKind` of `fixedArrayFromBuffer`: floating point / signed / unsigned / anything else by itself -/
+def fmtKind (c : Char) : Nat :=
+  if c == 'e' || c == 'f' || c == 'd' then 0
+  else if c == 'b' || c == 'h' || c == 'i' || c == 'l' || c == 'q' then 1
+  else if c == 'B' || c == 'H' || c == 'I' || c == 'L' || c == 'Q' then 2
+  else 3 + c.toNat % 256
+
+/-- `fmt[0]` after `if (*fmt == '@' || *fmt == '<') ++fmt;` (the terminating NUL when nothing follows) -/
+def fmtChar (fmt : List Char) : Char :=
+  match fmt with
+  | [] => Char.ofNat 0
+  | c :: rest => if c == '@' || c == '<' then rest.headD (Char.ofNat 0) else c
+
+/-- byte offsets, relative to `view.buf`, of the items in C (row-major) order -/
+def itemOffsets : List Nat → List Int → List Int
+  | [], _ => [0]
+  | _ :: _, [] => []
+  | n :: ns, st :: sts => (List.range n).flatMap (fun (i : Nat) => (itemOffsets ns sts).map (fun o => Int.ofNat i * st + o))
+
+/-- the `itemsize` bytes at signed position `p` of the block (`none`: outside the block) -/
+def itemAt (mem : List Nat) (itemsize : Nat) (p : Int) : Option (List Nat) :=
+  if 0 ≤ p ∧ p.toNat + itemsize ≤ mem.length then some ((mem.drop p.toNat).take itemsize) else none
+
+def gather (mem : List Nat) (itemsize : Nat) (off : Nat) : List Int → Option (List Nat)
+  | [] => some []
+  | o :: os =>
+    match itemAt mem itemsize ((off : Int) + o), gather mem itemsize off os with
+    | some b, some bs => some (b ++ bs)
+    | _, _ => none
+
+/-- **the specification**: the source's items in C order — what `bytes(memoryview)` / `tolist()` show -/
+def Src.logicalBytes (s : Src) : Option (List Nat) :=
+  gather s.mem s.itemsize s.off (itemOffsets s.shape s.strides)
+
+/-- the `view.len` bytes starting at `view.buf`, as `memcpy` reads them -/
+def Src.flatBytes (s : Src) : Option (List Nat) :=
+  if s.off + s.len ≤ s.mem.length then some ((s.mem.drop s.off).take s.len) else none
+
+/-- `_IsCContiguous` of CPython's `abstract.c`, from the last dimension: the expected stride `sd` on success -/
+def contigFrom (itemsize : Nat) : List Nat → List Int → Option Nat
+  | [], _ => some itemsize
+  | _ :: _, [] => none
+  | n :: ns, st :: sts =>
+    match contigFrom itemsize ns sts with
+    | none => none
+    | some sd => if 1 < n ∧ st ≠ (sd : Int) then none else some (sd * n)
+
+/-- `PyBuffer_IsContiguous (&view, 'C')` -/
+def Src.isCContiguous (s : Src) : Bool :=
+  s.len == 0 || (contigFrom s.itemsize s.shape s.strides).isSome
+
 /-- `fixedArrayFromBuffer<ArrayT>`: the new array's storage as bytes.
-    `new ArrayT (view.shape[0], UNINITIALIZED)` then `memcpy (dst, view.buf, view.len)`. -/
+    `new ArrayT (view.shape[0], UNINITIALIZED)` then the copy of `view.len` bytes. -/
 def fromBuffer (cfg : BufCfg) (t : ElemTy) (src : Src) : Except FromErr (List Nat) :=
   if badPrefix src.format then .error .unsupportedType else
   let allocBytes := src.shape0 * t.sizeofT
   if cfg.fromBufferChecks ∧
-      (src.format ≠ [t.format] ∨ src.itemsize ≠ t.atomicSize ∨ src.bytes.length ≠ allocBytes) then
+      (src.shape = [] ∨ src.itemsize ≠ t.atomicSize ∨ fmtKind (fmtChar src.format) ≠ fmtKind t.format ∨
+        src.len ≠ allocBytes) then
     .error .mismatch
-  else if src.bytes.length ≤ allocBytes then
-    .ok (src.bytes ++ List.replicate (allocBytes - src.bytes.length) 0)
-  else .error .oob
+  else if cfg.copy = .requireContiguous ∧ src.isCContiguous = false then .error .notContiguous
+  else if allocBytes < src.len then .error .oob
+  else
+    match (if cfg.copy = .logical then src.logicalBytes else src.flatBytes) with
+    | none => .error .oobRead
+    | some bytes => .ok (bytes ++ List.replicate (allocBytes - bytes.length) 0)
 
 end ImathVerif.BufferProtocol
